@@ -561,7 +561,7 @@ NOTE:
                     ci = x[-1][:] #XXX: do something else?
                 else: raise exc
             x.append(ci.tolist() if hasattr(ci, 'tolist') else ci)
-        if all(xi == x[-1] for xi in x[1:]) and e is None:
+        if all(xi == x[-1] for xi in x) and e is None:
             return x[-1] if onexit is None else onexit(x[-1][:])
         # cycle constraints until there's no change
         _constraints = it.cycle(constraints) 
@@ -579,7 +579,7 @@ NOTE:
                     ci = x[-1][:] #XXX: do something else?
                 else: raise exc
             x.append(ci.tolist() if hasattr(ci, 'tolist') else ci)
-            if all(xi == x[-1] for xi in x[-n:]) and e is None:
+            if all(xi == x[-1] for xi in x[-(n+1):]) and e is None:
                 return x[-1] if onexit is None else onexit(x[-1][:])
             # may be trapped in a cycle... randomize
             if x[-1] == x[-(n+1)]:
